@@ -308,8 +308,10 @@ func (rw *recWriter) write(f string, args []string, pos []string, o outcome, opt
 	}
 	rw.seen[k] = true
 	rec := record(f, args, pos, o, opt)
-	for key, v := range extra {
-		rec[key] = v
+	for _, key := range []string{"hist", "step", "goroutines"} { // integers only: TLC reads every field
+		if v, has := extra[key]; has {
+			rec[key] = v
+		}
 	}
 	rw.w.Write(rec)
 	rw.Written++
@@ -564,7 +566,7 @@ func c11Replay(argv []string) error {
 				opt := histExprs%3 != 2
 				c := compileCall(f, part[0].args, pos, opt, histExprs%2 == 1)
 				step := 0
-				var prev []string
+				prev := []string{}
 				do := func(e *entry) {
 					o := c.eval(e.args)
 					histSteps++
